@@ -80,31 +80,44 @@ def mask(src: str) -> str:
 
 def strip_comments(src: str) -> str:
     """remove // and /* */ comments (doc comments included); literals untouched"""
-    m = mask(src)
     out = []
     i, n = 0, len(src)
     while i < n:
-        if m[i] == ' ' and src[i] == '/' and i + 1 < n and src[i + 1] in '/*':
-            # comment start: skip while masked blank and original differs or is comment text
-            if src[i + 1] == '/':
-                j = src.find('\n', i)
-                j = n if j < 0 else j
-                i = j
+        c = src[i]
+        if c == '/' and i + 1 < n and src[i + 1] == '/':
+            j = src.find('\n', i)
+            i = n if j < 0 else j
+        elif c == '/' and i + 1 < n and src[i + 1] == '*':
+            depth, j = 1, i + 2
+            while j < n and depth:
+                if src.startswith('/*', j):
+                    depth += 1; j += 2
+                elif src.startswith('*/', j):
+                    depth -= 1; j += 2
+                else:
+                    j += 1
+            i = j
+        elif c == 'r' and re.match(r'r#*"', src[i:i + 8]) and (i == 0 or not (src[i - 1].isalnum() or src[i - 1] == '_')):
+            m = re.match(r'r(#*)"', src[i:])
+            end = src.find('"' + m.group(1), i + len(m.group(0)))
+            end = n if end < 0 else end + 1 + len(m.group(1))
+            out.append(src[i:end]); i = end
+        elif c == '"':
+            j = i + 1
+            while j < n and src[j] != '"':
+                if src[j] == '\\':
+                    j += 1
+                j += 1
+            out.append(src[i:j + 1]); i = j + 1
+        elif c == "'":
+            m = re.match(r"'(\\.[^']*|[^'\\])'", src[i:i + 12])
+            if m:
+                out.append(m.group(0)); i += len(m.group(0))
             else:
-                depth, j = 1, i + 2
-                while j < n and depth:
-                    if src.startswith('/*', j):
-                        depth += 1; j += 2
-                    elif src.startswith('*/', j):
-                        depth -= 1; j += 2
-                    else:
-                        j += 1
-                i = j
+                out.append(c); i += 1
         else:
-            out.append(src[i])
-            i += 1
+            out.append(c); i += 1
     txt = ''.join(out)
-    # drop lines that became empty/whitespace-only runs
     txt = re.sub(r'[ \t]+\n', '\n', txt)
     txt = re.sub(r'\n{3,}', '\n\n', txt)
     return txt
@@ -981,6 +994,18 @@ class Rewriter:
         return code
 
     # ---- R8: local `const NAME: &[&str] = &[...]` -> `let NAME: Vec<&'static str> = vec![...]`
+    def local_const_strs(self, code):
+        n = 0
+        while True:
+            m = mask(code)
+            mm = re.search(r'(?<![A-Za-z0-9_])const\s+([A-Z_][A-Z0-9_]*)\s*:\s*&\s*str\s*=', m)
+            if not mm:
+                break
+            code = code[:mm.start()] + "let %s: &'static str =" % mm.group(1) + code[mm.end():]
+            n += 1
+        self.note('local-const-str->let', n)
+        return code
+
     def local_const_slices(self, code):
         n = 0
         while True:
@@ -1005,6 +1030,7 @@ class Rewriter:
         if opts.get('maperr'):
             code = self.map_err_match(code)
         code = self.let_chains(code)
+        code = self.local_const_strs(code)
         code = self.local_const_slices(code)
         if not opts.get('no_while_let'):
             code = self.while_let(code)
@@ -1031,6 +1057,8 @@ def to_spec(expr: str) -> str:
     # X.contains(P) / X.vx_contains(P)
     e = re.sub(r'([A-Za-z_][A-Za-z0-9_.]*)\s*\.\s*(?:vx_)?contains\s*\(\s*("(?:\\.|[^"\\])*")\s*\)', r'vx::contains_seq(\1@, \2@)', e)
     e = re.sub(r'([A-Za-z_][A-Za-z0-9_.]*)\s*\.\s*(?:vx_)?starts_with\s*\(\s*("(?:\\.|[^"\\])*")\s*\)', r'vx::is_sub_at(\1@, \2@, 0)', e)
+    # STR.contains(c) with a single-letter (char) argument
+    e = re.sub(r'([A-Za-z_][A-Za-z0-9_.]*)\s*\.\s*(?:vx_)?contains\s*\(\s*([a-z])\s*\)', r'vx::contains_seq(\1@, seq![\2])', e)
     e = e.replace('.as_str()@', '@')
     e = re.sub(r'([A-Za-z_][A-Za-z0-9_.]*)\s*\.\s*as_ref\s*\(\s*\)', r'vx::opt_ref(&\1)', e)
     return e
@@ -1132,6 +1160,7 @@ METHOD_RULES_PRE = [
     (r'\.\s*all\s*\(', 'vx::vec_all', 'strip_iter', 'vec.iter().all->vx::vec_all'),
 ]
 METHOD_RULES = [
+    (r'\.\s*lines\s*\(\s*\)\s*\.\s*map\s*\(\s*\|\s*s\s*\|\s*s\s*\.\s*to_string\s*\(\s*\)\s*\)\s*\.\s*filter\s*\(\s*\|\s*s\s*\|\s*!\s*s\s*\.\s*is_empty\s*\(\s*\)\s*\)\s*\.\s*collect\s*\(\s*\)', 'vx_nonempty_lines()', 'rename_whole', 'str.lines().map(to_string).filter(non-empty).collect()->vx_nonempty_lines'),
     (r'\.\s*abs\s*\(\s*\)\s*<\s*([0-9.]+)', r'vx_abs_lt(\1)', 'replace_tail', 'f64.abs() < c -> vx_abs_lt(c)'),
     (r'\.\s*format\s*\(\s*"%y%m%d"\s*\)', 'vx_fmt_yymmdd()', 'rename_whole', 'chrono NaiveDate.format("%y%m%d")->vx_fmt_yymmdd'),
     (r'\.\s*format\s*\(\s*"%H%M"\s*\)', 'vx_fmt_hhmm()', 'rename_whole', 'chrono NaiveTime.format("%H%M")->vx_fmt_hhmm'),
